@@ -207,8 +207,11 @@ def reuse_scenarios(n, seed, batches=(1, 2, 3, 5, BIG)):
         nph = 2 if k % 4 else 3
         cuts = sorted(rnd.sample(range(1, len(st)), min(nph - 1, len(st) - 1))) if len(st) > 1 else []
         phases = [st[a:b] for a, b in zip([0] + cuts, cuts + [len(st)])]
-        out.append({"B": rnd.choice(batches), "buf": 0,
-                    "runs": [{"ing": True, "ug": False, "spans": st, "phases": phases}]})
+        run = {"ing": True, "ug": False, "spans": st, "phases": phases}
+        if k % 5 == 0:
+            # the last stream restricted to some workflow names (stream_data's filter_job_names parameter)
+            run["names"] = sorted(rnd.sample(sorted({s["name"] for s in st}), 1))
+        out.append({"B": rnd.choice(batches), "buf": 0, "runs": [run]})
     return out
 
 
